@@ -297,6 +297,45 @@ def expectedEntry (q r : Msg) : Sx :=
 
 def expectedEntries (conv : List (Msg × Msg)) : Sx := .list (conv.map fun (q, r) => expectedEntry q r)
 
+/-- the map Analyze builds from a name/value list: one entry per name, the values of a repeated
+    name joined with "," in the order of the list; sorted by name for comparison -/
+def mergeMap (l : List (Bytes × Bytes)) : List (Bytes × Bytes) :=
+  let keys := (l.map (·.1)).eraseDups
+  let m := keys.map fun k => (k, ([44] : Bytes).intercalate ((l.filter (·.1 == k)).map (·.2)))
+  m.mergeSort fun a b => Sx.hexOfBytes a.1 ≤ Sx.hexOfBytes b.1
+
+/-- RFC 7230 tchar -/
+def isTokenByte (b : UInt8) : Bool :=
+  (48 ≤ b && b ≤ 57) || (65 ≤ b && b ≤ 90) || (97 ≤ b && b ≤ 122) ||
+  (bytesOfString "!#$%&'*+-.^_`|~").contains b
+
+def validCookieValueByte (b : UInt8) : Bool := 32 ≤ b && b < 127 && b != 34 && b != 59 && b != 92
+
+/-- one `name=value` as net/http accepts it (library behaviour, modelled): the name a non-empty
+    token, the value - surrounding double quotes stripped - of printable bytes without `"`, `;`, `\` -/
+def cookiePair (requireEq : Bool) (part : Bytes) : Option (Bytes × Bytes) :=
+  let p := Wire.trimOWS part
+  if p.isEmpty then none
+  else if requireEq && !p.contains 61 then none
+  else
+    let name := Wire.trimOWS (p.takeWhile (· != 61))
+    let raw := (p.dropWhile (· != 61)).drop 1
+    let val := if raw.length > 1 && raw.head? == some 34 && raw.getLast? == some 34 then (raw.drop 1).dropLast else raw
+    if name.isEmpty || !name.all isTokenByte || !val.all validCookieValueByte then none else some (name, val)
+
+/-- request cookies: every `name=value` of every Cookie line, in wire order -/
+def cookiesOf (headers : List (Bytes × Bytes)) : List (Bytes × Bytes) :=
+  (headers.filter fun h => Wire.lower h.1 == bytesOfString "cookie").flatMap fun h =>
+    (Wire.splitOnByte 59 h.2).filterMap (cookiePair false)
+
+/-- response cookies: the first `name=value` of every Set-Cookie line -/
+def setCookiesOf (headers : List (Bytes × Bytes)) : List (Bytes × Bytes) :=
+  (headers.filter fun h => Wire.lower h.1 == bytesOfString "set-cookie").filterMap fun h =>
+    ((Wire.splitOnByte 59 h.2).head?).bind (cookiePair true)
+
+def sortPairs (l : List (Bytes × Bytes)) : List (Bytes × Bytes) :=
+  l.mergeSort fun a b => Sx.hexOfBytes a.1 ++ "=" ++ Sx.hexOfBytes a.2 ≤ Sx.hexOfBytes b.1 ++ "=" ++ Sx.hexOfBytes b.2
+
 end Spec
 
 end KsVerif.Http
